@@ -97,6 +97,7 @@ async def do_execute(world, proto, cmd, label=None):
         rec["outcome"] = "result"
         rec["raw"] = bytes(resp.raw_data)
         rec["data"] = bytes(resp.response_data())
+        rec["resp"] = resp   # the returned object itself (a caller may keep it across later requests)
     except asyncio.CancelledError as e:
         # a CancelledError leaving execute() while nobody cancelled the caller is an outcome, not a cancellation
         rec["outcome"] = "other:CancelledError"
